@@ -165,7 +165,7 @@ func expectedEmbedded(doc J, cfg fcfg, prune bool) (map[string]interface{}, erro
 }
 
 func runC19(ctx *Ctx) error {
-	ctx.Res.Rule = "CORR of the Lean base64 / chunk model with encoding/base64 and with the emitted literal on seeded byte strings (every residue of the length mod 3 and mod 80); RUN: seeded documents (incl. non-ASCII text, text that spells JSON escapes, callback components, parameters only path items refer to, and descriptions padded so that the encoded length hits every residue mod 80 over the run) x tag / operation-id filters x prune on/off x frameworks: the swaggerSpec literal of the real output is decoded, loaded, validated and compared semantically (paths, methods, parameters, bodies, responses, schemas, security, references; operation ids modulo normalisation) with the input after the statement's filter and prune; multi-document: a specification referring to a document named in the import mapping (schemas, array items, a component parameter and response) and to a plain schema file that is not, generated with the mapped package and compiled: GetSwagger() of the package loads, validates and resolves every schema, parameter, body and response to what the input resolves to; non-trivial = every document x configuration"
+	ctx.Res.Rule = "CORR of the Lean base64 / chunk model with encoding/base64 and with the emitted literal on seeded byte strings (every residue of the length mod 3 and mod 80); RUN: seeded documents (incl. non-ASCII text, text that spells JSON escapes, callback components, parameters only path items refer to, and descriptions padded so that the encoded length hits every residue mod 80 over the run) x tag / operation-id filters x prune on/off x frameworks: the swaggerSpec literal of the real output is decoded, loaded, validated and compared semantically (paths, methods, parameters, bodies, responses, schemas, security, references; operation ids modulo normalisation) with the input after the statement's filter and prune; multi-document: a specification referring to a document named in the import mapping (schemas, array items, a component parameter and response) and to a plain schema file that is not, generated with the mapped package and compiled: GetSwagger() of the package loads, validates and resolves every schema, parameter, body and response to what the input resolves to; non-trivial = every document x configuration Session 9: TRANS Gen/Pipeline.lean; nullable enums listing null first, in the middle and last."
 	// CORR base64 / chunk
 	for i := 0; i < ctx.N(600, 6000); i++ {
 		r := ctx.Rng.Fork()
